@@ -214,14 +214,25 @@ fn produce_image_from_entry(entry: &Entry) -> Result<image::RgbaImage, String> {
         format!("cannot transcode from unknown color format {}", format)
     })?;
 
+    let expected_len = content_width as usize * content_height as usize * cformat.bytes_per_pixel();
+    if texture_data.data.len() != expected_len {
+        return Err(format!(
+            "image data is {} bytes long, but a {}x{} image in color format {} needs {}",
+            texture_data.data.len(), content_width, content_height, format, expected_len,
+        ));
+    }
     let content_argb = cformat.transcode_to_argb_8888(&texture_data.data);
     let content = BgraImage::from_raw(content_width, content_height, &content_argb[..]).expect("size error?!");
 
     let offset_x = entry.specs.offset_x;
     let offset_y = entry.specs.offset_y;
-    let output_width = content_width + offset_x;
-    let output_height = content_height + offset_y;
-    let output_init_argb = vec![0xFF; 4 * output_width as usize * output_height as usize];
+    let too_large = || format!("image offsets {}x{} are too large", offset_x, offset_y);
+    let output_width = content_width.checked_add(offset_x).ok_or_else(too_large)?;
+    let output_height = content_height.checked_add(offset_y).ok_or_else(too_large)?;
+    // (an image this large cannot be a real texture; refuse instead of trying to allocate it)
+    let output_len = (4 * output_width as u64).checked_mul(output_height as u64)
+        .filter(|&len| len <= i32::MAX as u64).ok_or_else(too_large)?;
+    let output_init_argb = vec![0xFF; output_len as usize];
     let mut output = BgraImage::from_raw(output_width, output_height, output_init_argb).expect("size error?!");
 
     output.sub_image(offset_x, offset_y, content_width, content_height)
